@@ -128,7 +128,7 @@ def run(ctx):
     ctx.exhaustive = True
     ctx.assumptions += ["bounded model: 0..3 files exhaustively (see rule); larger archives only by seeded sampling",
                         "every compared parse is preceded, on the same thread, by failing parses of truncated copies of the same image (a parse result must depend on the image alone)",
-                        "names are taken from the lossless Shift-JIS domain; the codec (encoding_rs) is trusted; names include 63/64/65 and 127/128/129-byte ones with a double-byte character across offsets 64 and 128",
+                        "names are taken from the lossless Shift-JIS domain; the codec (encoding_rs) is trusted; names include 63/64/65 and 127/128/129-byte ones with a double-byte character across offsets 64 and 128, single-byte and double-byte names of 255/256/257, 300 and 1000 bytes, and half-width katakana names whose Shift-JIS bytes are also well-formed UTF-8",
                         "placement and padding of names, and trailing padding of the file, are not demanded of the builder "
                         "(byte differences from CanonPack are counted in informational_mismatches only)",
                         "of the packs with > 2^24 bytes of bodies only the entry table, the names and the first / last 32 bytes of every "
